@@ -197,6 +197,7 @@ Definition T_LOG := 128%Z.    Definition T_FIX := 256%Z.
 Definition T_QFULL := 512%Z.  (* the rank is the last one of its bin: goal = count (D8's >= test) *)
 Definition T_IQR := 1024%Z.   Definition T_BTV := 2048%Z.
 Definition T_QUNDER := 4096%Z. (* quantile taken with a non-zero under count (D8's missing subtraction) *)
+Definition T_WIDE := 8192%Z.   (* LogHist with max >= 2^63: its upper edges are beyond the int range (integer edge arithmetic would wrap) *)
 
 Definition qres_tag (h : hstate) (r : qres) : Z :=
   match r with
@@ -307,7 +308,8 @@ Definition p_shape : parser (hkind * hstate * Z * Z) :=
        let v := if negb (st =? 0)%Z then 2%Z
                 else if log_nbins_ok bq m mx nobs then 0%Z
                 else if log_nbins_relaxed bq m mx nobs then 1%Z else 2%Z in
-       pret (KLog b m, h_empty nobs, v, T_LOG)
+       pret (KLog b m, h_empty nobs, v,
+             Z.lor T_LOG (if Qle_bool (inject_Z (2 ^ 63)) mx then T_WIDE else 0)%Z)
      else (fun _ => None))
   else if (kind =? 2)%Z then
     (do u <- pZ; do cs <- plist pZ; do o <- pZ;
